@@ -496,6 +496,19 @@ def run(chk):
                     bad = re.fullmatch(r"\w+\.peek\((syn::)?Ident\)", lhs) is not None
                     chk.shape("R9", key, good, bad, ATTR, node["line"], what="an identifier-only look-ahead: `instr(<tuple index>, ..)` is no longer read as a rename to that member (the index is swallowed by the rest of the payload)",
                               expected="peek_member(input) && input.peek2(Token![,])", found=lhs)
+        # the same look-ahead written as two separate tests (early return / nested if): decided per function that asks `peek2(,)`
+        seen_fns = {i_.key.split(":optional-member#")[0] for i_ in chk.instances if i_.rule == "R9"}
+        for fi in chk.repo.fns(ATTR):
+            if fi.qual in seen_fns:
+                continue
+            txt = render(fi.body).replace(" ", "")
+            if not re.search(r"\.peek2\(Token!\[,\]\)|\.peek2\(Token!\(,\)\)", txt):
+                continue
+            n += 1
+            has_m = re.search(r"\bpeek_member\(\w+\)", txt) is not None
+            has_i = re.search(r"\w+\.peek\((syn::)?Ident\)", txt) is not None
+            chk.shape("R9", f"{fi.qual}:optional-member#split", has_m and not has_i, has_i and not has_m, ATTR, fi.line,
+                      what="an identifier-only look-ahead: `instr(<tuple index>, ..)` is no longer read as a rename to that member", expected="peek_member(input) .. input.peek2(Token![,])", found="peek(Ident)" if has_i else "none")
         if n < 2:
             chk.inconc("R9", f"only {n} optional-member look-aheads found in attr.rs (2 confirmed by hand: AsAttr::parse, try_parse_optional_ident)")
     chk.guard("R9", r9)
